@@ -440,7 +440,8 @@ def entity_matching(
     """
     if isinstance(type_, CanBehaveLikeAVariable):
         return Match(type_._type_, domain=domain, variable=type_)
-    elif type_ and not isinstance(type_, type):
+    elif type_ is not None and not isinstance(type_, type):
+        # a literal to match, an empty collection is a literal as well
         return Match(type_, domain=domain, variable=Literal(type_))
     return Match(type_, domain=domain)
 
